@@ -13,8 +13,7 @@ LEVEL = "proof"
 PROPS = "Walk/Props_C10.v"
 COQ_FILES = wc.COQ_FILES + ["Walk/Invariant.v", "Walk/Faults.v", "Walk/FaultProofs.v", "Walk/LimitProofs.v", "Walk/Props_C10.v"]
 THEOREMS = ["inode_bound", "inode_fail_iff", "size_bound", "cancel_no_new_file", "cancel_inside_extract_same_file",
-            "cancel_reports_failure", "gitignore_abort_panics_refuted", "gitignore_cancel_panics_refuted",
-            "limits_never_panic_on_D"]
+            "cancel_reports_failure", "limits_never_panic"]
 
 META = {
     "technique": "Coq proof (trace invariants preserved by every handleFile call, lifted through the whole engine; budgeted execution "
@@ -25,9 +24,9 @@ META = {
                   "larger than MaxFileSize reaches Extract (size_bound); once the context is cancelled by the k-th visit no Extract "
                   "starts on any later file (cancel_no_new_file), cancelled inside an Extract only the current file's remaining "
                   "extractors still run (cancel_inside_extract_same_file); cancellation is reported as failure exactly when visits "
-                  "remained (cancel_reports_failure). 'Never panics' is REFUTED with UseGitignore (gitignore_abort_panics_refuted, "
-                  "gitignore_cancel_panics_refuted, known findings) and proved on D = UseGitignore off for any trees, faults, "
-                  "limits, cancellation points, roots (limits_never_panic_on_D). Image half (layer_file_limit): see part_C10_image.",
+                  "remained (cancel_reports_failure). Run never panics for any trees, faults, limits, cancellation points, requested paths "
+                  "and roots, with or without UseGitignore (limits_never_panic; the former gitignore-stack panic was repaired in "
+                  "/repo commit 3fdcaf3f and its witnesses are part of the regression corpus). Image half (layer_file_limit): see part_C10_image.",
     "level_note": "Trusted: Coq kernel + vm_compute; harness (cancellation through a context the stats hook / fake extractor cancels "
                   "at a chosen call). The per-plugin context checks of standalone.Run and detector.Run are not modelled "
                   "(no standalone extractor or detector is configured by the walk harness).",
@@ -92,10 +91,10 @@ def run(ctx):
     ctx.log("corr_bad=%d spec_bad=%d iff_domain=%d observed_panics=%d shards=%d" %
             (len(corr_bad), len(spec_bad), len(iff_dom), len(panics), nshards))
     # every observed panic must be the known one: UseGitignore on (the oracle already fails a panic without it)
-    unexpected_panics = [i for i in panics if not cases[i].get("gitignore")]
+    unexpected_panics = sorted(panics)
     for i in unexpected_panics[:3]:
         ctx.violation({"kind": "spec-failure", "case": describe(cases[i]), "case_index": i,
-                       "explanation": "panic without UseGitignore: outside the known finding's domain"})
+                       "explanation": "the engine panicked"})
 
     stale = []
     for e in ctx.known_findings():
@@ -167,13 +166,13 @@ def run(ctx):
             "outcome": wc.histogram(c["obs"]["class"] for c in cases),
             "roots": wc.histogram(len(c["roots"]) for c in cases),
             "gitignore": wc.histogram(bool(c.get("gitignore")) for c in cases),
-            "iff_oracle_domain": len(iff_dom), "observed_panics_all_with_gitignore": len(panics),
+            "iff_oracle_domain": len(iff_dom), "observed_panics": len(panics),
             "base_trees": len({c.get("variant") for c in cases}),
             "image_half": {k: v for k, v in (img_stats or {}).items() if k in ("evaluations", "distinct_nontrivial", "size_vs_limit", "streams")},
         },
         "vm_compute_cases": len(cases),
         "explanation": "bounds (visits <= MaxInodes, size of every extracted file <= MaxFileSize, no Extract on a file first visited "
-                       "after the cancellation point, no panic without UseGitignore) are evaluated on every case; the fails-iff-"
+                       "after the cancellation point, no panic) are evaluated on every case; the fails-iff-"
                        "work-remained statements on the cases inside their domain",
     }
     ctx.coverage.update(cov)
